@@ -225,6 +225,8 @@ func (p *parser) readStructType() *Type {
 	t := &Type{Kind: TypeStruct}
 	t.Fields = make([]TypeField, 0)
 
+	// whitespace and comments may also separate the parentheses of an empty list
+	p.advance()
 	char := p.next()
 	if char != ')' {
 		p.backup()
